@@ -80,3 +80,37 @@ def _mk_parse(k):
 for _k in (1, 2, 3):
     _mk_split(_k)
     _mk_parse(_k)
+
+
+# ================================================================================================== C16: a directory level is realised once
+# Traversable.children: an already realised level is returned as it is - the same list object, nothing written, the realiser not
+# called again - so no earlier `ls` / export can change what a later one sees at that level; set_routines touches `_routines` only.
+@contract(S + "Traversable.children[realised]", source_key=S + "Traversable.children", props=["C16", "C10"], proof_only=True)
+def _ch_done(c):
+    c.self_obj(("self", "smpl_extract.structural:Traversable", {"_children": ("clist", [_leaf("X")]), "_routines": ("cdict", {}),
+                                                                "_f_realize_children": ("obj", "MustNotBeCalled", {})}))
+    c.ensures("result is self._children and len(result) == 1", "the-realised-level-is-returned-unchanged")
+    c.modifies()
+
+
+@contract("smpl_extract.structural:f_realize_children#abstract", abstract=True, assumed=True,
+          note="the level's realiser (construct glue): returns some list of elements; called with the parent / routines additions")
+def _fr(c):
+    c.param("context_additions", ("drop",))
+    c.returns(("list", "int"))
+
+
+@contract(S + "Traversable.children[first-use]", source_key=S + "Traversable.children", props=["C16"], proof_only=True)
+def _ch_first(c):
+    c.self_obj(("self", "smpl_extract.structural:Traversable", {"_children": ("const", None), "_routines": ("cdict", {}), "_f_realize_children": ("drop",)}))
+    c.abstract_calls = {"self._f_realize_children": "smpl_extract.structural:f_realize_children#abstract"}
+    c.ensures("result is self._children and self._children is not None", "the-level-is-realised-and-remembered")
+    c.modifies("self._children")
+
+
+@contract(S + "Traversable.set_routines", props=["C16"])
+def _sr(c):
+    c.self_obj(("self", "smpl_extract.structural:Traversable", {"_children": ("clist", [_leaf("Y")]), "_routines": ("cdict", {}), "_f_realize_children": ("drop",)}))
+    c.param("routines", ("cdict", {}))
+    c.ensures("self._routines is routines and self._children is not None", "only-the-routine-table-is-replaced")
+    c.modifies("self._routines")
